@@ -27,7 +27,7 @@
    __del__ -- they depend on garbage collection.  Not proved: C06_aiter_sync
    (composition with C05). *)
 From Asynkit Require Import Base.Prelude Base.Obs Coro.Tree Coro.Native Coro.TreeProofs
-  Coro.AsyncGen Coro.GenObj Coro.GenObjSim Coro.GenObjProofs.
+  Coro.AsyncGen Coro.GenObj Coro.GenObjSim Coro.GenObjProofs Coro.GenObjNested.
 
 (* For EVERY body tree of the domain, every store and EVERY consumer history:
    step by step the two objects produce the same body events and the same
@@ -100,3 +100,13 @@ Theorem C06_nested_ayield : forall (n : nat) (d : val) (kr : val -> coro) (ke : 
              forall i, (forall v, i <> Throw (StopIteration v)) -> eqv (k1 i) (resume_with kr ke i).
 Proof. exact nested_ayield. Qed.
 Print Assumptions C06_nested_ayield.
+
+(* ... and for a whole body: [deepen n c] replaces EVERY `r = yield d` of the body
+   c by `r = await g.ayield(d)` issued under n coroutine frames; the result is
+   bisimilar to c for every consumer that never throws StopIteration ([eqvn]:
+   as [eqv], with the continuations of suspensions compared on all inputs but
+   Throw (StopIteration _)).  Tree level; that [eqvn] bodies give equal
+   GeneratorObject traces is checked by the `genobj` stream, not proved. *)
+Theorem C06_nested_ayield_all : forall (n : nat) (c : coro), eqvn (deepen n c) c.
+Proof. exact deepen_eqvn. Qed.
+Print Assumptions C06_nested_ayield_all.
